@@ -14,17 +14,17 @@ CHECKS = {
              text="For generated buildings and factor sets every weighted field is checked to be affine in k_exp (w(k) = w(0) + k (w(1) - w(0))) at two interior points, B(0) = A per carrier / service / total / per m2, formula (20) per carrier, and every final-energy flow and step A quantity is checked to be independent of k_exp; buildings that export nothing must give the same result for all k. Exploration.",
              note="Trusts generator soundness and the tolerance policy (two evaluations differ by HashMap summation order).", ref="4/C03"),
  "C04": dict(tech="property-based testing (proptest): invariants (sums of breakdowns) plus a metamorphic area change",
-             text="Every total is compared with the sum of the per-carrier figures, every by-service / by-carrier / by-source map with its total (keys neither missing nor invented), per-m2 x area with the absolute figure for every field, and a second evaluation with another area must change only arearef and the per-m2 block. Exploration over generated buildings, factor sets, k_exp and areas from 0.001 to 1e6.",
+             text="Every total is compared with the sum of the per-carrier figures, every by-service / by-carrier / by-source map with its total (keys neither missing nor invented), per-m2 x area with the absolute figure for every field, and a second evaluation with another area must change only arearef and the per-m2 block. Exploration over generated buildings, factor sets, k_exp and areas from 0.001 to 1e6. Per carrier the weighted breakdowns are checked too (weighted delivered = grid + on-site + cogeneration input, weighted exported step A = grid + nEPB).",
              note="Trusts generator soundness and the tolerance policy.", ref="4/C04"),
 
  "C08": dict(tech="property-based testing (proptest): differential, full versus stripped factor set under catch_unwind",
-             text="For generated buildings (SALIDA lines anywhere, auxiliaries as only electricity, cogeneration with and without declared input, nEPB uses, surplus ambient/solar) and prepared factor sets, Factors::strip and both evaluations are run under catch_unwind: no panic, a successful evaluation stays successful, all numeric fields agree within tolerance, and strip only removes factors. Exploration.",
+             text="For generated buildings (SALIDA lines anywhere, auxiliaries as only electricity, cogeneration with and without declared input, nEPB uses, surplus ambient/solar) and prepared factor sets, Factors::strip and both evaluations are run under catch_unwind: no panic, a successful evaluation stays successful, all numeric fields agree within tolerance, and strip only removes factors. The DHW indicator computed from either result (what the program adds after simplifying the factors) must be the same value or the same error; a quarter of the buildings come from the DHW grammar. Exploration.",
              note="Trusts generator soundness and the tolerance policy.", ref="4/C08"),
  "C09": dict(tech="property-based testing (proptest): metamorphic relation under permutation and subdivision of time steps",
              text="Each generated building is evaluated in its base layout, with all steps permuted by a generated permutation and with each step split into m equal sub-steps (m in 2,3,4,5,8): every annual field and ratio must agree, per-step vectors must follow the permutation / carry 1/m, f_match must be unchanged. Exploration, cogeneration and load matching over-weighted.",
              note="Sub-step values stay >= 0.00125 kWh; v/m rounded to f32; tolerance policy.", ref="4/C09"),
  "C11": dict(tech="property-based testing (proptest): metamorphic scaling of energies and of the area",
-             text="Generated buildings with DHW demand are scaled by c (powers of two from 2^-6 to 2^20 and 3.7, 10, 0.1, 1e3, 1e6, kept inside the property's value domain): energies, weighted energies and per-step vectors must scale by c, RER*, f_match and the DHW renewable fraction (value or error) must not change; scaling the area by c must divide only the per-m2 block. Exploration.",
+             text="Generated buildings with DHW demand are scaled by c (powers of two from 2^-6 to 2^20 and 3.7, 10, 0.1, 1e3, 1e6, kept inside the property's value domain): energies, weighted energies and per-step vectors must scale by c, RER*, f_match and the DHW renewable fraction (value or error) must not change; scaling the area by c must divide only the per-m2 block. Values have up to four decimals, 30 % of the buildings are mapped into hundredths of a kWh (every magnitude v -> 0.01 + v/10^k) so that absolute thresholds of the order of 1e-3 bite, 30 % come from the DHW grammar. Exploration.",
              note="Domain 'zero or >= 0.01 kWh' applied to both buildings; ratio comparisons under the denominator noise rule.", ref="4/C11"),
  "C12": dict(tech="property-based testing (proptest): per-step invariants on regime-forced electricity buildings, pairwise load matching on/off",
              text="Electricity-centred generated buildings hit every regime per step (no production, no use, PV>=use, PV<use<=PV+CHP, use>PV+CHP, PV==use, only CHP). Checked per step: PV allocated before cogeneration, allocations bounded by use and production, f_match == 1 without load matching and equal to formula (32) within [0.5,1] with it, and load matching never increases self-use nor decreases grid delivery (all carriers). Exploration.",
@@ -37,8 +37,8 @@ CHECKS = {
              text="Generated component files dense in EAMBIENTE/TERMOSOLAR lines (several systems, ids negative/repeated, uses for all services, declared production none/partial/exact/surplus/orphan) are parsed: every declared CONSUMO/PRODUCCION/SALIDA line must be found unchanged (ids, tags, f32 values, comments), demands must equal the sum of their lines, the added production must equal max(0, use - declared) per carrier, system and step and nothing else may be added; surplus is exported and nothing is delivered by the grid; normalising twice equals once numerically. Exploration.",
              note="AUX lines are C06's; numeric (not structural) comparison for idempotence, see DESIGN.", ref="4/C05"),
  "C06": dict(tech="property-based testing (proptest): reference model of the auxiliary split computed from the generated lines, checked after parsing and through the balance",
-             text="For generated files with up to 5 auxiliary-bearing systems (single-service, multi-service with positive/negative/zero outputs, several AUX and SALIDA lines, electricity otherwise present or absent) the parsed AUX components are compared with a model: conservation per system and step, no negative share, EPB services only, single-service rule, output-magnitude proportions; then the electricity balance's EPB use per step and per service must equal CONSUMO + the split, also when AUX is the only electricity. Exploration.",
-             note="Systems are assignable by construction; where all outputs are zero only conservation and sign are required.", ref="4/C06"),
+             text="For generated files with up to 5 auxiliary-bearing systems (single-service, multi-service with positive/negative/zero outputs, several AUX and SALIDA lines, electricity otherwise present or absent) the parsed AUX components are compared with a model: conservation per system and step, no negative share, EPB services only, single-service rule, output-magnitude proportions; then the electricity balance's EPB use per step and per service must equal CONSUMO + the split, also when AUX is the only electricity. One case in sixteen zeroes every output of a multi-service system: the file must then be refused, or the energy still conserved. Exploration.",
+             note="Systems are assignable by construction except in the flagged unassignable cases; where all outputs are zero at a step only conservation and sign are required.", ref="4/C06"),
  "C07": dict(tech="property-based testing (proptest): generated factor files / locations / user factors, oracle = rules of the statement evaluated on the prepared set plus a building over its carriers",
              text="Generated user factor files (subsets of carriers, export and on-site lines present or absent, duplicates, shuffled, distinct values) and the four locations, with user RED1/RED2 given or not: kept lines bit-identical through find(), forced keys (1,0,0), step A/B export defaults, RED precedence, no MissingFactor when evaluating a generated building over the set's carriers, idempotence of normalize and of re-preparing the printed set, and rejection of unusable sets. Exploration.",
              note="Usable sets always contain the electricity grid factor; no COGEN-source lines.", ref="4/C07"),
@@ -46,27 +46,27 @@ CHECKS = {
              text="RER must equal ren/(ren+nren) of the reported step B energy, lie in [0,1], and 0 <= RER_onst <= RER_nrb <= RER whenever total primary energy is above rounding noise; all three must be 0 when the total is exactly 0. Three known findings (export of on-site / cogenerated electricity not netted by origin) are excused by signature and counted. Exploration.",
              note="Ratio tolerance and noise rule of DESIGN 3.4; signatures of known findings are predicates on exported flows and declared cogeneration inputs.", ref="4/C13"),
  "C15": dict(tech="property-based testing (proptest): DHW grammar with closed-form oracle, error-class parity and metamorphic invariances",
-             text="A dedicated grammar builds DHW supply mixes (direct electric, heat pump incl. low-SCOP exclusion, solar thermal, RED1/RED2 with user factors, fossil boiler, biomass with/without SALIDA) with consistent, absent or zero demand, shared PV, auxiliaries, other services and nEPB uses; the reported fraction must match the f64 closed form, lie in [0,1], report the documented errors (and error_acs in misc) in the non-computable classes, and be invariant under added nEPB lines, added non-electric lines of other services, another k_exp and scaling by 2^k (also with cogeneration present). Exploration.",
-             note="Closed form validated against the library on >100k cases; tolerance 1e-4 plus f32 noise term proportional to DHW inputs / demand.", ref="4/C15"),
+             text="A dedicated grammar builds DHW supply mixes (direct electric, heat pump incl. low-SCOP exclusion, solar thermal, RED1/RED2 with user factors, fossil boiler, biomass with/without SALIDA) with consistent, absent or zero demand, shared PV, auxiliaries, other services and nEPB uses; the reported fraction must match the f64 closed form, lie in [0,1], report the documented errors (and error_acs in misc) in the non-computable classes, and be invariant under added nEPB lines, added non-electric lines of other services, another k_exp and scaling by 2^k (also with cogeneration present). The grammar also has a cogeneration unit (1-3 nearby/distant fuels with own profiles, steps without electricity, or no production line at all) whose contribution is part of the closed form, biomass systems that also heat under the same id, a generated reference area with an 'another area' invariance, and the indicator map must hold either the value or the error also when a result carrying stale entries is completed again. Exploration.",
+             note="Closed form validated against the library on >1M cases; cogeneration is in the anchor of the property but not in its list of canonical mixes (DESIGN 8.2); tolerance 1e-4 plus f32 noise term proportional to DHW inputs / demand.", ref="4/C15"),
 
  "C19": dict(tech="property-based testing (proptest) driving the real cteepbd binary out of process, oracle = precedence model of the statement",
-             text="Each generated case is one run of /repo's cteepbd binary with, independently for area, k_exp, location, RED1, RED2, the option absent/valid/invalid and the metadata absent/valid/invalid (boundaries, out-of-range, non-numeric, empty), factor source none / -l / -f incl. the -f/-l conflict. Checked: exit status (0/1/64/65), the three echo lines with origin and value, --json k_exp/arearef/wfactors, --oc metadata, C_ep of the report against an in-process evaluation with the effective parameters, and no report / result files on refusal. Exploration over the configuration matrix.",
+             text="Each generated case is one run of /repo's cteepbd binary with, independently for area, k_exp, location, RED1, RED2, the option absent/valid/invalid and the metadata absent/valid/invalid (boundaries, out-of-range, non-numeric, empty), factor source none / -l / -f incl. the -f/-l conflict. Checked: exit status (0/1/64/65), the three echo lines with origin and value, --json k_exp/arearef/wfactors, --oc metadata, C_ep of the report against an in-process evaluation with the effective parameters, and no report / result files on refusal. Exploration over the configuration matrix. RED1/RED2 metadata are written in the three documented forms (a, b, c / (a, b, c) / { ren: a, nren: b, co2: c } in any key order), components of the triples are often exactly 0 or 1.",
              note="Corners on which the statement is silent accept both behaviours (listed in evidence assumptions); debug build of the CLI.", ref="4/C19"),
 
  "C17": dict(tech="property-based testing (proptest): validity predicates on the three output documents (strict XML checker, JSON round trip, report parser) over generated results with nasty comment / metadata strings; a sample also through the real binary",
-             text="For generated results whose comments and metadata contain <, >, &, quotes, backslashes, ]]>, -->, partial entities, combining and astral characters: to_xml() must pass a strict well-formedness checker and state kexp, AreaRef, Epm2, every Valores list and every factor of the struct; the JSON must be valid, read back into a result and re-serialise to the same document (up to the 3-decimal rounding); every labelled number and table of to_plain() must match the struct, table keys exact and sorted; a second evaluation must print the same labels and numbers. About 1-3 % of the cases also run cteepbd --json --xml --txt and apply the same checks to the files (and --txt == stdout report). Exploration.",
+             text="For generated results whose comments and metadata contain <, >, &, quotes, backslashes, ]]>, -->, partial entities, combining and astral characters: to_xml() must pass a strict well-formedness checker and state kexp, AreaRef, Epm2, every Valores list and every factor of the struct; the JSON must be valid, read back into a result and re-serialise to the same document (up to the 3-decimal rounding); every labelled number and table of to_plain() must match the struct, table keys exact and sorted; a second evaluation must print the same labels and numbers. About 1-3 % of the cases also run cteepbd --json --xml --txt and apply the same checks to the files (and --txt == stdout report). The plain report's DHW indicator line (per cent with one decimal, or a dash) is checked against the indicator map. Exploration.",
              note="Hand-written XML checker (no XML crate offline); comment content fidelity not claimed; one printed unit tolerance.", ref="4/C17"),
 
  "C18": dict(tech="property-based testing (proptest): round trip through Display / FromStr for components and factors, differential evaluation of both sides, and a sample through cteepbd --oc/--of and a second run on the emitted files",
-             text="Generated component files (any layout: legacy lines without id, spacing, comment lines, BOM, CRLF, header; comments with '#', ',', ':'; metadata; AUX, SALIDA, DEMANDA, completion cases) and prepared factor sets are written with to_string() and parsed back: same metadata, demands within 0.005, components equal by (kind, id, tags) within 0.005 per printed value, same user comments, factors with the same keys in order within 0.0005, and the evaluation of the read-back pair within the accumulated printing error. About 1-2 % of the cases run cteepbd --oc/--of and re-run it on the emitted files, comparing the two reports. Exploration.",
+             text="Generated component files (any layout: legacy lines without id, spacing, comment lines, BOM, CRLF, header; comments with '#', ',', ':'; metadata; AUX, SALIDA, DEMANDA, completion cases) and prepared factor sets are written with to_string() and parsed back: same metadata, demands within 0.005, components equal by (kind, id, tags) within 0.005 per printed value, same user comments, factors with the same keys in order within 0.0005, and the evaluation of the read-back pair within the accumulated printing error. About 1-2 % of the cases run cteepbd --oc/--of and re-run it on the emitted files, comparing the two reports. The factor set held by a result (with the derived COGEN-source lines) is round-tripped as well. Exploration.",
              note="Grouped comparison (re-reading re-normalises); by-service weighted energy compared with a conditioning-aware slack; CLI part for areas >= 0.01 m2 (metadata precision).", ref="4/C18"),
 
  "C10": dict(tech="property-based testing (proptest): metamorphic relation between a canonical file and a generated meaning-preserving rewriting of it; repeated evaluation in process and in separate processes",
-             text="Each generated building is rendered canonically and through a composition of rewritings (line permutation, splitting a line into pieces that add up, bijective id renumbering incl. to/from 0 and negative ids, omitted id 0, spacing, whitespace, blank and # lines, vector header, BOM, CRLF, demands/metadata positions): both must parse, all numeric fields, RER values and the DHW fraction must agree within tolerance, three repeated evaluations must agree, and a sample is run through the binary twice on the same file and once on the rewritten file (identical report lines, numbers within one printed unit). Exploration.",
+             text="Each generated building is rendered canonically and through a composition of rewritings (line permutation, splitting a line into pieces that add up, bijective id renumbering incl. to/from 0 and negative ids, omitted id 0, spacing, whitespace, blank and # lines, vector header, BOM, CRLF, demands/metadata positions): both must parse, all numeric fields, RER values and the DHW fraction must agree within tolerance, three repeated evaluations must agree, and a sample is run through the binary twice on the same file and once on the rewritten file (identical report lines, numbers within one printed unit). A fifth of the buildings come from the DHW grammar (multi-fuel cogeneration), and the DHW indicator is compared in the repeated evaluations as well. Exploration.",
              note="Tolerance policy (HashMap summation order); lines are split only when their values are whole hundredths.", ref="4/C10"),
 
  "C16": dict(tech="property-based testing (proptest) with a corruption grammar and token soups under catch_unwind, out-of-process runs of the binary with a watchdog, and (thorough) two coverage-guided libFuzzer campaigns whose crashes are re-confirmed in process",
-             text="Valid files from building() (without its soundness restrictions) and valid factor files are corrupted (fields / lines dropped, duplicated, truncated, swapped, replaced by NaN, inf, 1e39, empty, non-ASCII digits, unknown tags; changed value counts; raw lines such as #META without colon, NUL, DEMANDA of another length, SALIDA without id; CR-only line ends), token soups and the empty file are added, options are arbitrary f32 incl. NaN/inf: the whole library chain must return values or errors, any panic is a violation. About 5 % of the cases also run the binary with arbitrary UTF-8 option strings, unwritable output paths and missing files: status in {0,1,64,65,73,74}, no signal, no panic text, stderr on failure, 20 s watchdog. Thorough adds fz_components / fz_factors (libFuzzer, fork mode, seed corpus from test_data, dictionary). Exploration.",
+             text="Valid files from building() (without its soundness restrictions) and valid factor files are corrupted (fields / lines dropped, duplicated, truncated, swapped, replaced by NaN, inf, 1e39, empty, non-ASCII digits, unknown tags; changed value counts; raw lines such as #META without colon, NUL, DEMANDA of another length, SALIDA without id; CR-only line ends), token soups and the empty file are added, options are arbitrary f32 incl. NaN/inf: the whole library chain must return values or errors, any panic is a violation. About 5 % of the cases also run the binary with arbitrary UTF-8 option strings, unwritable output paths and missing files: status in {0,1,64,65,73,74}, no signal, no panic text, stderr on failure, 20 s watchdog. Thorough adds fz_components / fz_factors (libFuzzer, fork mode, seed corpus from test_data, dictionary). Dedicated corruptions write a special but parseable number (NaN, +-inf, negative, huge, subnormal) into one or all values of a line so that the odd value travels through the whole computation; the program is also run without -c, with --licencia and --red2. Exploration.",
              note="Files <= 4 KiB; UTF-8 argv only; debug build of the CLI; a fuzz artifact that does not reproduce in process (slow input, OOM) is inconclusive, not a violation.", ref="4/C16"),
 }
 PENDING = {}
